@@ -14,6 +14,7 @@ RULE = (
     'log-uniform [0.1,10], sigma [0.05,5]) or one non-positive scale, and a prior for the posterior clause. '
     'Non-trivial: >=2 outputs whose grids are not identical, or a tied time. Distinct = distinct (n_out, n_par, '
     'error models + fixed sets, grid lengths, relation class, tied flag).')
+RULE += (' ' + 'Added classes: outputs that were never measured (empty observation lists, also in front of measured outputs); negative mechanistic parameters / model outputs where every error model admits them (Gaussian; constant+multiplicative with sigma_base + sigma_rel*ybar > 0); one argument buffer updated in place between evaluations.')
 ASSUMPTIONS = [
     'the analytic mechanistic model (vf/analytic_model.py) is part of the harness',
     'reference densities from the error-model docstrings (vf/ref.py)',
